@@ -136,11 +136,13 @@ static void run_C18(const Args &a, long cs) {
 				hist += std::string("permute(") + (isperm ? "valid" : "invalid") + ");"; phase_log("splinetable_permute");
 				try { T.permuteDimensions(p); } catch (std::exception &) { threw = true; } std::vector<size_t> pc = p; rc = splinetable_permute(&h.c, pc.data()); expect("splinetable_permute"); break; }
 			case 13: case 14: { // fit: good / bad arguments / into occupied handle
-				int nd = r.range(1, 2); std::vector<uint32_t> ord(nd), por(nd); std::vector<std::vector<double>> kn(nd), co(nd); std::vector<double> lam(nd); size_t npt = 1;
+				bool refused = r.coin(0.04); // a consistent request the fitter itself refuses late (its flattened array would exceed INT_MAX columns): fails on both sides, and gives back everything
+				int nd = refused ? 5 : r.range(1, 2); std::vector<uint32_t> ord(nd), por(nd); std::vector<std::vector<double>> kn(nd), co(nd); std::vector<double> lam(nd); size_t npt = 1;
 				for (int d = 0; d < nd; d++) { ord[d] = (uint32_t)r.below(3); por[d] = (uint32_t)r.below(ord[d] + 1); int nk = 2 * ord[d] + 2 + (int)r.below(3); kn[d] = gen_knots(r, ord[d], nk, 1, 1.0, 0.0, true); int np = nk + 3; for (int i = 0; i < np; i++) co[d].push_back(kn[d][0] + (kn[d].back() - kn[d][0]) * (0.01 + 0.98 * (i + 0.5) / np)); npt *= np; lam[d] = r.coin(0.5) ? 0.0 : 0.1; }
+				if (refused) { npt = 1; for (int d = 0; d < nd; d++) { ord[d] = 0; por[d] = 0; lam[d] = 0; kn[d].clear(); for (int i = 0; i < 16; i++) kn[d].push_back(i); co[d] = {7.5}; } count("fits-the-fitter-refuses-late"); }
 				photospline::ndsparse data(npt, nd), data2(npt, nd); std::vector<double> w(npt, 1.0); std::vector<unsigned> I(nd);
 				for (size_t lin = 0; lin < npt; lin++) { size_t q = lin; for (int d = nd - 1; d >= 0; d--) { I[d] = (unsigned)(q % co[d].size()); q /= co[d].size(); } double y = std::sin(1.0 * lin) + 2; std::vector<unsigned> J = I; data.insertEntry(y, J.data()); J = I; data2.insertEntry(y, J.data()); }
-				int bad = (int)r.below(4); uint32_t monodim = r.coin(0.2) ? 0 : Table::no_monodim;
+				int bad = (int)r.below(4); uint32_t monodim = r.coin(0.2) ? 0 : Table::no_monodim; if (refused) { bad = 0; monodim = Table::no_monodim; }
 				if (bad == 1) { if (kn[0].size() >= 3) std::swap(kn[0][1], kn[0][2]); else bad = 0; } else if (bad == 2) monodim = (uint32_t)nd + 1; else if (bad == 3) kn[0].resize(ord[0] + 1);
 				hist += std::string("fit(") + (bad == 0 || bad > 3 ? "good" : "bad") + (populated ? ",occupied" : "") + ");"; phase_log("splinetable_glamfit");
 				try { T.fit(data, w, co, ord, kn, lam, por, monodim, false); } catch (std::exception &) { threw = true; }
